@@ -64,6 +64,8 @@ type RunCfg struct {
 	WTime     int
 	Crashes   []CrashSpec
 	JobFaults map[string]string
+	SlowLabel string // tasks whose label contains this get SlowDiv times less weight
+	SlowDiv   int
 	Restarts  int  // maximal number of restarts the operator performs
 	KeepTrace bool // keep the full schedule trace (else only a rolling hash)
 	Env       map[string]string
@@ -380,6 +382,13 @@ func (r *Run) classWeight(t *vrt.Task) int {
 	if w <= 0 {
 		w = 1
 	}
+	w *= 16
+	if r.Cfg.SlowLabel != "" && r.Cfg.SlowDiv > 1 && strings.Contains(t.Label, r.Cfg.SlowLabel) {
+		w /= r.Cfg.SlowDiv
+		if w < 1 {
+			w = 1
+		}
+	}
 	return w
 }
 
@@ -514,7 +523,7 @@ func (r *Run) release(parked []*vrt.Task, allowTime bool) bool {
 		w = append(w, r.classWeight(t))
 	}
 	if allowTime && haveDl && r.Cfg.WTime > 0 {
-		w = append(w, r.Cfg.WTime)
+		w = append(w, r.Cfg.WTime*16)
 	}
 	i := r.Cfg.Sched.Pick(w)
 	if i == len(parked) {
